@@ -41,7 +41,7 @@ let str_meta m = let ((i, e), x) = m in Printf.sprintf "%s %s %s" (sz i) (sz e) 
 
 let str_res r = match r with
   | Res.Panic -> "PANIC"
-  | Res.Err e -> Printf.sprintf "ERR %d" (int_of_nat e)
+  | Res.Err _ -> "ERR"   (* which check fires first is not part of the property *)
   | Res.Ok (ELossless (l, m)) ->
     Printf.sprintf "LL %s %s %s %s | %s" (sz l.lQuality) (sz l.lMethod) (sz l.lNear) (sb l.lExact) (str_meta m)
   | Res.Ok (ELossy (c, a, ex, sh, m)) ->
